@@ -1,15 +1,16 @@
 // C15 — SBOMs the library writes can be read back by the library.
 //
 // Space (finite, enumerated completely):
-//   pool P   = every PURL type some built-in extractor emits (purl.TypeXxx constants referenced
-//              below /extractor, united with the types seen in the C14 fixture harvest) x the
-//              shapes of shapes(), restricted to PURLs the third-party purl library itself accepts,
-//              plus one package without PURL;
-//   pool Q   = the bare shape of every type, every shape for types generic and deb, the PURL-less package;
-//   quick    : inventories of size 0, size 1 over P, size 2 (ordered, with repetition) over Q;
-//   thorough : size 0..1 over P, size 2 over P, size 3 over Q;
-//   each x {spdx23-json -> x.spdx.json, spdx23-yaml -> x.spdx.yml, spdx23-tag-value -> x.spdx,
-//           cdx-json -> x.cdx.json, cdx-xml -> x.cdx.xml}.
+//
+//	pool P   = every PURL type some built-in extractor emits (purl.TypeXxx constants referenced
+//	           below /extractor, united with the types seen in the C14 fixture harvest) x the
+//	           shapes of shapes(), restricted to PURLs the third-party purl library itself accepts,
+//	           plus one package without PURL;
+//	pool Q   = the bare shape of every type, every shape for types generic and deb, the PURL-less package;
+//	quick    : inventories of size 0, size 1 over P, size 2 (ordered, with repetition) over Q;
+//	thorough : size 0..1 over P, size 2 over P, size 3 over Q;
+//	each x {spdx23-json -> x.spdx.json, spdx23-yaml -> x.spdx.yml, spdx23-tag-value -> x.spdx,
+//	        cdx-json -> x.cdx.json, cdx-xml -> x.cdx.xml}.
 //
 // Oracle: converter.ToSPDX23 / ToCDX -> binary/spdx.Write23 / binary/cdx.Write into a fresh
 // directory -> filesystem.Run with the sbom/spdx and sbom/cdx extractors over that directory.
@@ -38,6 +39,7 @@ import (
 	"fmt"
 	"os"
 	"path/filepath"
+	"regexp"
 	"sort"
 	"strings"
 	"sync"
@@ -168,6 +170,7 @@ type outcome struct {
 	Spurious  []string `json:"spurious"`
 	WriteErr  string   `json:"write_error,omitempty"`
 	ScanErr   string   `json:"scan_error,omitempty"`
+	ReadFail  string   `json:"sbom_extractor_failure,omitempty"`
 	Panic     string   `json:"panic,omitempty"`
 	PanicSite string   `json:"-"`
 }
@@ -249,13 +252,18 @@ func roundTrip(inv []poolItem, f format, dir string) (o outcome) {
 		if o.WriteErr != "" {
 			return
 		}
-		got, _, err := filesystem.Run(context.Background(), &filesystem.Config{
+		got, sts, err := filesystem.Run(context.Background(), &filesystem.Config{
 			Extractors: []filesystem.Extractor{spdxe.New(), cdxe.New()},
 			ScanRoots:  scalibrfs.RealFSScanRoots(dir),
 			Stats:      stats.NoopCollector{},
 		})
 		if err != nil {
 			o.ScanErr = err.Error()
+		}
+		for _, st := range sts {
+			if st != nil && st.Status != nil && st.Status.Status != plugin.ScanStatusSucceeded && st.Status.FailureReason != "" {
+				o.ReadFail += st.Name + ": " + st.Status.FailureReason + "; "
+			}
 		}
 		for _, p := range got.Packages {
 			if p == nil || p.Extractor == nil {
@@ -325,8 +333,28 @@ func doReplay(file string) {
 	os.Exit(0)
 }
 
+var (
+	reQuoted = regexp.MustCompile(`"[^"]*"|'[^']*'`)
+	reNoise  = regexp.MustCompile(`[^A-Za-z]+`)
+)
+
+// failClass turns an importer failure into a stable, input-independent class.
+func failClass(s string) string {
+	s = strings.ReplaceAll(s, "x.spdx.json", "")
+	s = strings.ReplaceAll(s, "x.spdx.yml", "")
+	s = strings.ReplaceAll(s, "x.spdx", "")
+	s = strings.ReplaceAll(s, "x.cdx.json", "")
+	s = strings.ReplaceAll(s, "x.cdx.xml", "")
+	s = reQuoted.ReplaceAllString(s, "_")
+	s = strings.Trim(reNoise.ReplaceAllString(s, "-"), "-")
+	if len(s) > 70 {
+		s = s[:70]
+	}
+	return s
+}
+
 // singleKey names the root cause of a failing single-package round trip.
-func singleKey(f format, p poolItem, o *outcome, allTypesFail bool) string {
+func singleKey(f format, label string, p poolItem, o *outcome, kind, typeSuffix string) string {
 	switch {
 	case o.Panic != "":
 		return "panic:" + o.PanicSite
@@ -338,17 +366,11 @@ func singleKey(f format, p poolItem, o *outcome, allTypesFail bool) string {
 			return "purl-type-rejected:" + strings.ToLower(p.Type)
 		}
 	}
-	kind := "lost"
-	if len(o.Lost) > 0 && len(o.Spurious) > 0 {
-		kind = "altered"
-	} else if len(o.Spurious) > 0 {
-		kind = "spurious"
+	if o.ReadFail != "" && len(o.Got) == 0 {
+		// the importer could not read the file at all: the parser's complaint is the root cause
+		return "import-failed:" + f.Name + ":" + failClass(o.ReadFail)
 	}
-	k := "roundtrip:" + f.Name + ":" + p.Shape + ":" + kind
-	if !allTypesFail {
-		k += ":type=" + p.Type
-	}
-	return k
+	return "roundtrip:" + label + ":" + p.Shape + ":" + kind + typeSuffix
 }
 
 func main() {
@@ -426,7 +448,7 @@ func main() {
 		seq++
 		n := seq
 		seqMu.Unlock()
-		return fmt.Sprintf("%s/w/%d", root, n)
+		return fmt.Sprintf("%s/w%d/%d", root, n%64, n) // sharded parents: no directory-lock contention
 	}
 	distinct := func(inv []poolItem, f format) {
 		var ss []string
@@ -463,14 +485,44 @@ func main() {
 		distinct(inv, formats[j.f])
 		res1[i] = &o
 	})
-	// root-cause keys of the single-package failures
-	failByShape := map[string]map[string]bool{} // format|shape -> failing types
+	// root-cause keys of the single-package failures: a failure shared by every format of a
+	// family (spdx23-*, cdx-*) is one cause; the type is part of the key only when at most three
+	// types (and not all) fail for that shape.
+	family := func(f format) string { return f.Name[:strings.Index(f.Name, "-")] + "-*" }
+	famSize := map[string]int{}
+	for _, f := range formats {
+		famSize[family(f)]++
+	}
+	kindOf := func(o *outcome) string {
+		switch {
+		case len(o.Lost) > 0 && len(o.Spurious) > 0:
+			return "altered"
+		case len(o.Spurious) > 0:
+			return "spurious"
+		}
+		return "lost"
+	}
+	famFails := map[string]int{} // family|poolIdx|kind -> failing formats
+	for i, o := range res1 {
+		if o == nil || o.ok() || len(jobs1[i].inv) == 0 {
+			continue
+		}
+		famFails[fmt.Sprintf("%s|%d|%s", family(formats[jobs1[i].f]), jobs1[i].inv[0], kindOf(o))]++
+	}
+	label := func(i int) string { // family label if the whole family fails alike, else the format
+		f := formats[jobs1[i].f]
+		if famFails[fmt.Sprintf("%s|%d|%s", family(f), jobs1[i].inv[0], kindOf(res1[i]))] == famSize[family(f)] {
+			return family(f)
+		}
+		return f.Name
+	}
+	failByShape := map[string]map[string]bool{} // label|shape|kind -> failing types
 	for i, o := range res1 {
 		if o == nil || o.ok() || len(jobs1[i].inv) == 0 {
 			continue
 		}
 		p := P[jobs1[i].inv[0]]
-		k := formats[jobs1[i].f].Name + "|" + p.Shape
+		k := label(i) + "|" + p.Shape + "|" + kindOf(o)
 		if failByShape[k] == nil {
 			failByShape[k] = map[string]bool{}
 		}
@@ -500,8 +552,17 @@ func main() {
 			continue
 		}
 		p := P[j.inv[0]]
-		all := len(failByShape[f.Name+"|"+p.Shape]) >= typesWithShape[p.Shape]
-		k := singleKey(f, p, o, all)
+		ft := failByShape[label(i)+"|"+p.Shape+"|"+kindOf(o)]
+		typeSuffix := ""
+		if len(ft) <= 3 && len(ft) < typesWithShape[p.Shape] {
+			var ts []string
+			for t := range ft {
+				ts = append(ts, t)
+			}
+			sort.Strings(ts)
+			typeSuffix = ":type=" + strings.Join(ts, ",")
+		}
+		k := singleKey(f, label(i), p, o, kindOf(o), typeSuffix)
 		singleFail[f.Name+"|"+idOf(p)] = k
 		what := fmt.Sprintf("%s, one package with PURL %s: document holds %q, scan of %s returned %q", f.Name, p.U, o.Expected, f.File, o.Got)
 		if p.U == nil {
@@ -512,6 +573,9 @@ func main() {
 		}
 		if o.WriteErr != "" {
 			what += " write error: " + o.WriteErr
+		}
+		if o.ReadFail != "" {
+			what += " importer: " + o.ReadFail
 		}
 		r.Violation(k, what, replay{f.Name, get(j)})
 	}
@@ -572,6 +636,11 @@ func main() {
 		}
 	})
 	sort.Slice(fails, func(a, b int) bool { return fails[a].i < fails[b].i })
+	invID := func(j job) string { return fmt.Sprint(j.q, j.inv) }
+	famFails2 := map[string]int{}
+	for _, fl := range fails {
+		famFails2[family(formats[jobs2[fl.i].f])+"|"+invID(jobs2[fl.i])+"|"+kindOf(&fl.o)]++
+	}
 	for _, fl := range fails {
 		j := jobs2[fl.i]
 		f := formats[j.f]
@@ -584,18 +653,34 @@ func main() {
 			}
 		}
 		if key == "" {
+			lbl := f.Name
+			if famFails2[family(f)+"|"+invID(j)+"|"+kindOf(&fl.o)] == famSize[family(f)] {
+				lbl = family(f)
+			}
+			dup := false
 			var ss []string
-			for _, p := range inv {
+			for a, p := range inv {
 				ss = append(ss, p.Shape)
+				for b := 0; b < a; b++ {
+					if j.inv[a] == j.inv[b] {
+						dup = true
+					}
+				}
 			}
 			sort.Strings(ss)
+			what := "interaction:" + strings.Join(ss, "+")
+			if dup {
+				what = "duplicate-packages"
+			}
 			switch {
 			case fl.o.Panic != "":
 				key = "panic:" + fl.o.PanicSite
 			case fl.o.WriteErr != "":
-				key = "export-failed:" + f.Name + ":interaction:" + strings.Join(ss, "+")
+				key = "export-failed:" + f.Name + ":" + what
+			case fl.o.ReadFail != "" && len(fl.o.Got) == 0:
+				key = "import-failed:" + f.Name + ":" + failClass(fl.o.ReadFail)
 			default:
-				key = "roundtrip:" + f.Name + ":interaction:" + strings.Join(ss, "+")
+				key = "roundtrip:" + lbl + ":" + what + ":" + kindOf(&fl.o)
 			}
 		}
 		var ps []string
